@@ -319,10 +319,12 @@ func buildTS(r *rng, sch *ttxSchedule, mux ttxMux) ([]byte, []ttxCue, error) {
 			units = append(units, dataUnit(0x03, 8, 30, []byte{ham84(0)}))
 		}
 		if mux.x28 {
-			// X/28/0 format 1 and M/29/0 with an all-zero first triplet: designate the default G0 set
-			units = append(units, dataUnit(0x03, sch.Magazine, 28, []byte{ham84(0)}), dataUnit(0x03, sch.Magazine, 29, []byte{ham84(0)}))
+			// X/28/0 format 1 and M/29/0 whose first triplet (Hamming 24/18) designates the default G0 set
+			def := append([]byte{ham84(0)}, tripletBytes(ham2418Word(0))...)
+			units = append(units, dataUnit(0x03, sch.Magazine, 28, def), dataUnit(0x03, sch.Magazine, 29, def))
 			if r.chance(1, 2) {
-				units = append(units, dataUnit(0x03, sch.Magazine, 28, []byte{ham84(4)}), dataUnit(0x03, sch.Magazine, 29, []byte{ham84(1)}))
+				units = append(units, dataUnit(0x03, sch.Magazine, 28, append([]byte{ham84(4)}, tripletBytes(ham2418Word(uint32(r.intn(8))<<7)^1<<uint(r.intn(24)))...)),
+					dataUnit(0x03, sch.Magazine, 29, append([]byte{ham84(1)}, tripletBytes(ham2418Word(uint32(r.intn(1<<18))))...)))
 			}
 		}
 		if mux.distractors && r.chance(1, 2) {
